@@ -545,7 +545,13 @@ fn c13(a: &Args) -> Report {
     s.checks = Checks { alive: true, rotation: true, ..Default::default() };
     // `DamageRstLazy` as the first operation gives the state with neither an active nor a closed
     // blob, in which every background lifecycle request "cannot apply"
-    let results = run_specs(&[s], a, &no_known);
+    // the other rotation trigger: the size limit (two 93-byte records behind the 20-byte header)
+    let mut by_size = s.clone();
+    by_size.name = "C13/seq/size-limit".into();
+    by_size.wcfg.max_data_in_blob = 1_000_000;
+    by_size.wcfg.max_blob_size = 200;
+    by_size.depth = s.depth - 1;
+    let results = run_specs(&[s, by_size], a, &no_known);
     let mut rep = seq_report("C13", a, "model_checking", results, SEQ_RULE);
     // epilogue writers interleaved with the worker, from every lifecycle prefix of depth <= 2
     let life = [Op::CloseBg, Op::CreateBg, Op::RestoreBg, Op::TryClose, Op::Rot, Op::FreeExcess, Op::d(0, 2)];
